@@ -76,6 +76,108 @@ REG = {
         "nested blocks and includes inside blocks are outside the quantifier's grammar; text emitted for an unbound plain "
         "variable is not judged",
     ),
+    "C01": (
+        "bounded-exhaustive enumeration of forbidden AST probes x evaluation contexts x pathways x tool sets, the whole "
+        "builtins/math/operator name universe under an audit hook, hostile strings, and a magnitude alphabet in "
+        "resource-limited child processes (engine D)",
+        "58 probe instances covering all 15 forbidden ast.expr classes of the running interpreter are placed at the root "
+        "and in every strict hole of every allowed context of depth <=2 (thorough 3) and run on all 5 pathways x 4 tool "
+        "sets: a success or a tool side effect is a witnessed confinement breach; 459 names x 7 call shapes run under "
+        "sys.addaudithook + canaries + a signature table for dangerous builtins; 128 hostile strings x both silent "
+        "settings and ROS-latch histories must always return a MetabolicResult; 16 (thorough 63) size-parametrised "
+        "expressions run in forked children under RLIMIT_CPU/RLIMIT_AS with a CPU-time deadline 6x the configured "
+        "timeout. The never-enforced timeout is a known finding keyed by the first heavy primitive.",
+        "non-str inputs, non-UTF-8 stdout encodings and tool bodies (user code) are out of scope; depth-3 innermost "
+        "level uses 16 representatives (full product at depth 2)",
+    ),
+    "C02": (
+        "bounded-exhaustive enumeration of the allowed expression grammar against Python's own eval as reference (engine D), "
+        "value-class reduction validated exhaustively",
+        "Every depth-1 expression over 16 leaves, every depth-2 (thorough depth-3) expression built from value-class "
+        "representatives, every member of a class in every depth-1 context (validation of the reduction), plus the "
+        "text-sensitive front end (trigger substrings in names/strings/operators) unreduced, are evaluated on the auto, "
+        "math, logic and transform pathways; engine success => value and type equal Python's (bool-coerced on the logic "
+        "pathway); Python raises => engine failure.",
+        "operand magnitudes bounded so evaluation is cheap; pow accepted as math.pow or builtins.pow; sign of zero not judged",
+    ),
+    "C03": (
+        "explicit-state BFS to fixpoint over registration / re-registration / call histories (engine A) + stateless "
+        "choice-point search over a scripted adversarial LLM provider (engine B)",
+        "Allowed sets {None, {}, {NET}, {NET,READ_FS}} x 13 tool declaration styles x requirement sets; operations: engulf/"
+        "register/re-register, metabolize over 9 text shapes x 5 pathways, execute_tool_call, scripted "
+        "Nucleus.transcribe_with_tools loops whose every round is a choice point; each tool body counts its invocations: "
+        "a disallowed tool's counter never moves and the entry point reports failure.",
+        "quick bounds the provider tree to 3 deviations (thorough unbounded); tools declaring both capability attributes "
+        "and string-valued capabilities are not modelled",
+    ),
+    "C09": (
+        "explicit-state BFS over lifecycle operation histories under a virtual clock with a scheduler-aware lock that turns "
+        "a self-deadlock into an observable result (engine A)",
+        "24 (thorough 120) configurations x all histories to depth 6 (7) over {start, tick(c), record_error, heartbeat, "
+        "check_timeouts, renew, trigger_apoptosis, terminate, reset, clock advance}; oracle: legal transition relation "
+        "observed through the callback stream and get_phase, absorbing/dead phases, tick result <=> ACTIVE afterwards, "
+        "length bounds, Hayflick bound between renewals, renew refusals, forced senescence, every call returns "
+        "(HangDetected instead of a timeout).",
+        "CoopLock mirrors Lock/RLock semantics; idle limit judged with the most generous notion of activity",
+    ),
+    "C11": (
+        "bounded-exhaustive enumeration of schemas x instances x corruption-operator sequences x strategy orders (engine D)",
+        "6 schemas x 49 instances with hazard strings x every sequence of <=2 (thorough 3) corruption operators x all 64 "
+        "strategy orders (6 orders at the longest length, reduction checked on every all-orders input) x fold / "
+        "fold_enhanced: valid => schema instance that re-validates with provenance in the raw text; invalid => no "
+        "structure + error trace; clean JSON => STRICT, confidence 1.0, json.loads values; plain and enhanced agree; "
+        "nothing raises; REPAIR results on syntactic-only corruptions equal the original instance.",
+        "provenance search is one raw_decode per '{' position (complete for object schemas)",
+    ),
+    "C13": (
+        "explicit-state BFS over waste-handling histories with per-item conservation accounting (engine A) + schedule "
+        "enumeration with preemption bounding over two real threads (engine C)",
+        "18 configurations x histories to depth 7 (thorough 10, fixpoint) over {ingest of each type, ingest_error, "
+        "ingest_sensitive, digest(k), autophagy, daemon prune, clock advance} with digester behaviour folded into the "
+        "alphabet; every item carries a unique id and must at all times be exactly one of queued / digested / reported "
+        "error / emergency-dropped / expired; queue bound, sensitive-item clauses; 53 (thorough 1813) two-thread "
+        "harnesses at line granularity, preemption bound 2 (3), deadlock = detected state.",
+        "harness digesters stand in for the built-in ones; more than 2 threads and bytecode granularity not explored",
+    ),
+    "C16": (
+        "bounded-exhaustive enumeration of port-type pairs, wiring diagrams and run-time label combinations against a "
+        "Kahn-scheduling reference (engine D)",
+        "All 21x21 port-type pairs through connect(); every diagram of <=3 (thorough 4) modules with every wire subset, "
+        "handler subset and external-input assignment within the port bounds; chains/fan-out/joins over all label tuples x "
+        "handler result kinds x external kinds x enforce_static_checks; oracle: acceptance rule, every module once after "
+        "its feeders, delivered values have port type and sufficient integrity, contradictory handler outputs rejected, "
+        "unschedulable diagrams raise WiringError (sweep counter bounds the run), capabilities = union.",
+        "ordering clause asserted for completed runs; total port counts bounded as stated in evidence",
+    ),
+    "C17": (
+        "bounded-exhaustive enumeration of fingerprints around every baseline bound, Treg rule sets and training windows "
+        "(engine D) + explicit-state BFS over ImmuneSystem histories under a virtual clock (engine A)",
+        "Real TCell.inspect over the product of per-bound positions x anergy x streak x manual flag; all threat level x "
+        "action x 625 rule sets x 12 records through RegulatoryTCell.evaluate; every training window of length 2-3 over a "
+        "24-observation alphabet then inspect; ImmuneSystem histories to depth 5 (6) from 7 roots: CONFIRMED/CRITICAL "
+        "only with baseline violation + second signal, in-baseline => no threat, anergic => silent, Treg lowers at most "
+        "one step and never touches CRITICAL, no threat right after training.",
+        "finite moderate floats only; a failed canary counts as both signals (weaker reading)",
+    ),
+    "C18": (
+        "stateless choice-point search over every generator / worker / provider behaviour sequence (engine B)",
+        "Generator output kind, worker factory/step behaviour, summariser and provider round are choice points; for all "
+        "limits 0..3 (thorough 0..4) every answer sequence is executed on the real ChaperoneLoop, RegenerativeSwarm and "
+        "Nucleus.transcribe_with_tools; call budgets, error-context threading (numbered misfolds), HEALED/VALID => "
+        "schema-valid structure, DEGRADED tagging, success => completion marker, tool rounds <= max_iterations + one final "
+        "completion; a runaway loop becomes a finite counterexample through the chooser horizon.",
+        "thorough bounds the two largest configurations to 5 / 3 deviations (stated in evidence caps_hit)",
+    ),
+    "C20": (
+        "explicit-state BFS over configuration histories on a genome lineage against a reference dict + approval predicate "
+        "(engine A) + exhaustive express() sweep (engine D)",
+        "Lineages of up to 3 genomes sharing a recording approval callback; profiles deep (11 ops/genome, depth 5-8) and "
+        "wide (~45 ops/genome, depth 2-3) over allow_mutations x 5 callback behaviours; unauthorised operations change no "
+        "value/hash anywhere in the lineage and log exactly one unapproved entry, authorised ones change exactly one gene "
+        "in one genome, replicate never alters the parent, rollback restores the preceding value; express() swept over "
+        "every type triple x level triple x context subset.",
+        "mutation_rate 0; in-place mutation of list values obtained from get_gene() is out of scope",
+    ),
 }
 
 PENDING_REASON = "check not built yet in this session (design in DESIGN.md section 4); will be claimed once its check runs clean"
